@@ -16,6 +16,7 @@ import ScyllaVerif.Model.Exec
 import ScyllaVerif.Model.PoolReconnect
 import ScyllaVerif.Model.PoolKeyspace
 import ScyllaVerif.Proofs.PoolReconnect
+import ScyllaVerif.Model.C10MetaFetch
 /-!
 # C10 — when a connection dies every request in flight on it fails promptly; none hangs
 
@@ -1210,5 +1211,201 @@ example :
     PoolKeyspace.run ⟨2, 0, 2⟩ [.die, .fill, .complete, .die, .fill, .complete] = ⟨2, 0, 2⟩ := by decide
 
 end poolkeyspace
+
+/-! ## The layer above the connection: what the metadata fetch makes of a failed request (round 9, C10-9)
+
+`Model/C10MetaFetch.lean`: `query_table_partitioners` / `query_keyspaces_tablets` turn ONE error into an empty answer
+(`DbError::Invalid` of the last attempt: the table does not exist). A request that was in flight when the control
+connection died completes with `BrokenConnectionError` (above: `break_errors_are_broken_connection`); the theorems
+below say that this - and every other failure - reaches the caller of the fetch: the fetch fails, nothing is published
+from it. Driven by the `metaf` cases (real Session, one request of a fetch meets a scripted fault). -/
+section metafetch
+open ScyllaVerif.C10MetaFetch ScyllaVerif.Retry
+
+/-- The swallowed pattern is exactly one value: the last attempt failed with `DbError::Invalid`. -/
+theorem isMissingTable_iff (e : FetchErr) :
+    isMissingTable e = true ↔ e = attemptFailure (.dbError .invalid) := by
+  constructor
+  · intro h
+    unfold isMissingTable at h
+    split at h
+    · rfl
+    · cases h
+  · rintro rfl; rfl
+
+/-- THE FILTER, for every result type, every "empty" value and every outcome: the result is `Ok v` exactly if the
+query itself was answered with `v`, or `v` is the empty answer and the last attempt failed with `DbError::Invalid`. -/
+theorem tolerates_exactly_missing_table {α : Type} (empty : α) (r : QueryResult α) (v : α) :
+    tolerateMissingTable empty r = .ok v ↔
+      r = .ok v ∨ (v = empty ∧ r = .error (attemptFailure (.dbError .invalid))) := by
+  cases r with
+  | ok w => simp [tolerateMissingTable]
+  | error e =>
+    by_cases h : isMissingTable e = true
+    · have he := (isMissingTable_iff e).1 h
+      subst he
+      simp [tolerateMissingTable, h, eq_comm]
+    · have hne : e ≠ attemptFailure (.dbError .invalid) := fun he => h ((isMissingTable_iff e).2 he)
+      simp [tolerateMissingTable, h, hne]
+
+/-- Every other error is returned as it is (the `result => result` arm). -/
+theorem other_errors_pass {α : Type} (empty : α) (e : FetchErr) (h : e ≠ attemptFailure (.dbError .invalid)) :
+    tolerateMissingTable empty (.error e : QueryResult α) = .error e := by
+  have : isMissingTable e = false := by
+    cases hm : isMissingTable e with
+    | false => rfl
+    | true => exact absurd ((isMissingTable_iff e).1 hm) h
+  simp [tolerateMissingTable, this]
+
+/-- In particular every failed ATTEMPT other than `DbError::Invalid` - PREPARE, first page or a later page. -/
+theorem only_invalid_is_swallowed {α : Type} (empty : α) (a : Retry.Err) (h : a ≠ .dbError .invalid) :
+    tolerateMissingTable empty (.error (attemptFailure a) : QueryResult α) = .error (attemptFailure a) := by
+  apply other_errors_pass
+  intro he
+  apply h
+  simpa [attemptFailure] using he
+
+/-- No error a connection hands to its callers is `DbError::Invalid`. -/
+theorem connection_error_is_not_invalid (e : ErrKind) : attemptErr e ≠ .dbError .invalid := by
+  cases e <;> simp [attemptErr]
+
+/-- COMPOSITION WITH THE CONNECTION MODEL (C10-9): the connection breaks - whatever the reachable state `c`, the
+break kind `k` and the in-flight set - while the `scylla_tables` / `scylla_keyspaces` request `r` waits on it: the
+caller `r` is handed a connection error `e`, and the tolerant query returns THAT error, not the empty answer. -/
+theorem request_in_flight_at_break_fails_the_tolerant_query (c : Conn) (h : Inv c) (k : BreakKind) (r : Nat)
+    (hw : getCaller c.callers r = some .waiting) (hp : r ∉ c.permits) {α : Type} (empty : α) :
+    ∃ e, getCaller (doBreak c k).callers r = some (.delivered (.err e)) ∧
+      tolerateMissingTable empty (.error (attemptFailure (attemptErr e)) : QueryResult α)
+        = .error (attemptFailure (attemptErr e)) := by
+  obtain ⟨e, h1, _⟩ := break_errors_are_broken_connection c h k r hw hp
+  exact ⟨e, h1, only_invalid_is_swallowed empty _ (connection_error_is_not_invalid e)⟩
+
+/-- The error a single query contributes to the fetch. -/
+theorem queryVerdict_none_iff (t : Table) (r : QueryResult Unit) :
+    queryVerdict t r = none ↔
+      r = .ok () ∨ (t.tolerant = true ∧ r = .error (attemptFailure (.dbError .invalid))) := by
+  unfold queryVerdict
+  cases ht : t.tolerant with
+  | false =>
+    cases r with
+    | ok w => simp
+    | error e => simp
+  | true =>
+    have key := tolerates_exactly_missing_table () r ()
+    cases hr : tolerateMissingTable () r with
+    | ok w =>
+      have : tolerateMissingTable () r = .ok () := by rw [hr]
+      simpa [hr] using key.1 this
+    | error e =>
+      simp only [if_true]
+      constructor
+      · intro h; cases h
+      · intro h
+        have := key.2 (by rcases h with h | ⟨_, h⟩ <;> simp [h])
+        rw [hr] at this; cases this
+
+private theorem findSome_none {β γ : Type} (f : β → Option γ) (l : List β) :
+    l.findSome? f = none ↔ ∀ x ∈ l, f x = none := by
+  simp
+
+private theorem mem_all (t : Table) : t ∈ Table.all := by
+  cases t <;> simp [Table.all]
+
+/-- THE FETCH RETURNS Ok EXACTLY IF every one of its queries was answered, or was one of the two tolerant queries and
+failed with `DbError::Invalid` - for every assignment of outcomes to the queries. -/
+theorem fetch_ok_iff (out : Table → QueryResult Unit) :
+    fetchVerdict out = none ↔
+      ∀ t, out t = .ok () ∨ (t.tolerant = true ∧ out t = .error (attemptFailure (.dbError .invalid))) := by
+  unfold fetchVerdict
+  rw [findSome_none]
+  constructor
+  · intro h t
+    exact (queryVerdict_none_iff t (out t)).1 (h t (mem_all t))
+  · intro h t _
+    exact (queryVerdict_none_iff t (out t)).2 (h t)
+
+/-- A fetch one of whose requests died with the connection FAILS (nothing is published from it), whichever query it
+was, whatever the other queries returned. -/
+theorem fetch_fails_when_a_request_dies_with_the_connection (out : Table → QueryResult Unit) (t : Table)
+    (e : ErrKind) (h : out t = .error (attemptFailure (attemptErr e))) : (fetchVerdict out).isSome = true := by
+  cases hv : fetchVerdict out with
+  | some _ => rfl
+  | none =>
+    rcases (fetch_ok_iff out).1 hv t with h1 | ⟨_, h1⟩
+    · rw [h] at h1; cases h1
+    · rw [h] at h1
+      have : attemptErr e = .dbError .invalid := by simpa [attemptFailure] using h1
+      exact absurd this (connection_error_is_not_invalid e)
+
+/-- What is published about a table's partitioner is the node's own value, or "none" after the node SAID that
+`scylla_tables` does not exist - never "none" made from an unanswered request. -/
+theorem published_partitioner_is_the_nodes_or_missing (p q : Option String) (r : QueryResult Unit)
+    (h : publishedPartitioner p r = some q) :
+    (r = .ok () ∧ q = p) ∨ (r = .error (attemptFailure (.dbError .invalid)) ∧ q = none) := by
+  unfold publishedPartitioner at h
+  cases r with
+  | ok w => left; simp [tolerateMissingTable] at h; exact ⟨rfl, h.symm⟩
+  | error e =>
+    right
+    by_cases hm : isMissingTable e = true
+    · simp [tolerateMissingTable, hm] at h
+      exact ⟨by rw [(isMissingTable_iff e).1 hm], h.symm⟩
+    · simp [tolerateMissingTable, hm] at h
+
+private theorem dbOfCode_invalid (code : Nat) : dbOfCode code = .invalid ↔ code = 0x2200 := by
+  unfold dbOfCode
+  constructor
+  · intro h
+    by_cases h0 : code = 0x2200
+    · exact h0
+    · simp only [h0, if_false] at h
+      repeat (split at h; · cases h)
+      cases h
+  · rintro rfl; rfl
+
+/-- The scripted faults of the `metaf` cases: the fetch survives exactly `ERROR Invalid` on a tolerant query. -/
+theorem faultTolerated_iff (t : Table) (f : Fault) :
+    faultTolerated t f = true ↔ t.tolerant = true ∧ f = .db 0x2200 := by
+  unfold faultTolerated
+  rw [Option.isNone_iff_eq_none, fetch_ok_iff]
+  constructor
+  · intro h
+    have ht := h t
+    simp only [faulted, if_true] at ht
+    rcases ht with h1 | ⟨h1, h2⟩
+    · cases h1
+    · refine ⟨h1, ?_⟩
+      have h3 : faultErr f = .dbError .invalid := by simpa [attemptFailure] using h2
+      cases f with
+      | db code =>
+        have : dbOfCode code = .invalid := by simpa [faultErr] using h3
+        rw [(dbOfCode_invalid code).1 this]
+      | badBody => simp [faultErr] at h3
+      | badErr => simp [faultErr] at h3
+      | connection => simp [faultErr] at h3
+  · rintro ⟨ht, rfl⟩ t'
+    by_cases h : t' = t
+    · subst h; right; exact ⟨ht, by simp [faulted, faultErr, dbOfCode]⟩
+    · left; simp [faulted, h]
+
+/-- Non-vacuity: the node says the table is missing → empty answer; the connection dies / the node is overloaded /
+the body is garbage → the error; a fetch with a dead `scylla_tables` request fails, one with a missing table does not. -/
+example :
+    tolerateMissingTable ([] : List Nat) (.error (attemptFailure (.dbError .invalid))) = .ok [] ∧
+    tolerateMissingTable ([] : List Nat) (.error (attemptFailure .brokenConnection))
+      = .error (attemptFailure .brokenConnection) ∧
+    tolerateMissingTable ([] : List Nat) (.error (attemptFailure (.dbError .overloaded)))
+      = .error (attemptFailure (.dbError .overloaded)) ∧
+    tolerateMissingTable ([] : List Nat) (.error (.prepareError (.dbError .invalid)))
+      = .error (.prepareError (.dbError .invalid)) ∧
+    tolerateMissingTable ([] : List Nat) (.ok [1, 2]) = .ok [1, 2] ∧
+    faultTolerated .scyllaTables .connection = false ∧ faultTolerated .scyllaTables (.db 0x2200) = true ∧
+    faultTolerated .tables (.db 0x2200) = false ∧ faultTolerated .scyllaKeyspaces .badBody = false ∧
+    publishedPartitioner (some "cdc") (.error (attemptFailure .brokenConnection)) = none ∧
+    publishedPartitioner (some "cdc") (.error (attemptFailure (.dbError .invalid))) = some none ∧
+    publishedPartitioner (some "cdc") (.ok ()) = some (some "cdc") :=
+  ⟨rfl, rfl, rfl, rfl, rfl, by decide, by decide, by decide, by decide, rfl, rfl, rfl⟩
+
+end metafetch
 
 end ScyllaVerif.Props.C10
